@@ -166,11 +166,11 @@ def verify_stage(ctx, items):
     return ctx.both(ops)
 
 
-def read_stage(ctx, files):
-    """files: list of hex strings. Compared op: sxg.read."""
+def read_stage(ctx, files, op='sxg.read'):
+    """files: list of hex strings. Compared op: sxg.read (or sxg.read.buffer: caller-owned *bytes.Buffer, overwritten afterwards)."""
     if not files:
         return [], []
     needs = ctx.model([f'sxg.read.needs {f}' for f in files])
     need_lists = [[n] if n and n.startswith('url:') else [] for n in needs]
     tabs = oracle_tables(ctx, need_lists, None)
-    return ctx.both([f'sxg.read {f} {u}' for f, (u, c, s) in zip(files, tabs)])
+    return ctx.both([f'{op} {f} {u}' for f, (u, c, s) in zip(files, tabs)])
